@@ -683,7 +683,7 @@ def _insert_nodedefs(
 ):
   def insert_index_mappings(x):
     if isinstance(x, extract.NodeStates) and isinstance(
-      x._graphdef, graph.NodeDef
+      x._graphdef, graph.NodeDef | graph.VariableDef
     ):
       nodedef = carry_nodedefs.popleft()
       x = x.replace(_graphdef=nodedef)
